@@ -31,7 +31,7 @@ def cfg_hook(rng, cfg, fam, i):
 
 
 def gen_cases(tier, seed):
-    fams = ["stripe-stress", "buffer-stress", "lut-stress", "alias-stress", "exact-chain", "exact-dag", "cpu-mix", "approx-tail", "exact-chain-big", "stripe-stress", "buffer-stress", "lut-stress"]
+    fams = ["stripe-stress", "buffer-stress", "lut-stress", "alias-stress", "exact-chain", "exact-dag", "cpu-mix", "approx-tail", "exact-chain-big", "stripe-stress", "buffer-stress", "lut-stress", "stripe-resize", "shared-weights"]
     return campaign.gen_cases(tier, seed, 3, 420, 12000, families=fams, cfg_hook=cfg_hook)
 
 
